@@ -108,8 +108,9 @@ def coq_eval_files(name, bodies, timeout=600):
         files.append(fn)
     if not files:
         return []
-    cmd = "printf '%%s\\n' %s | xargs -P16 -I{} sh -c 'ulimit -s unlimited; timeout %d coqc -Q . V Corr/{}.v > Corr/{}.out 2>&1; echo $? > Corr/{}.rc'" % (
-        " ".join(files), timeout)
+    cd = os.path.basename(CORR)
+    cmd = "printf '%%s\\n' %s | xargs -P16 -I{} sh -c 'ulimit -s unlimited; timeout %d coqc -Q . V %s/{}.v > %s/{}.out 2>&1; echo $? > %s/{}.rc'" % (
+        " ".join(files), timeout, cd, cd, cd)
     sh(cmd, cwd=COQ, timeout=timeout * (len(files) // 16 + 2))
     outs = []
     for fn in files:
@@ -244,6 +245,16 @@ def proof_stage(rep, prop):
         "modelled, not verified: CPython semantics of await / async generators / aclose, heapq and list.sort (abstract), dict/set/deque",
     ]
     rep.notes["theorems"] = thms
+    if rep.tier == "thorough":
+        # independent re-check of the compiled property file and everything it depends on
+        with BuildLock():
+            rc, out = sh("timeout 1500 coqchk -silent -o -Q . V V.Props.%s 2>&1 | tail -14" % prop, cwd=COQ, timeout=1600)
+        summary = " ".join(out.split())
+        rep.notes["coqchk"] = summary[-600:]
+        rep.cov["trusted_base"].append("coqchk -o on Props/%s.vo: %s" % (prop, summary[-300:]))
+        if rc != 0 or "Axioms: <none>" not in summary:
+            rep.violation("coqchk", {"broken": "coqchk -o V.Props.%s did not report an axiom-free, fully checked context" % prop, "log": out[-1500:]}, no_input=True)
+            return False
     return True
 
 
